@@ -15,6 +15,7 @@ CONSTANTS
   ByzMax = TRUE
   MaxNodes = 6
   MaxVotes = 5
+  Monotone = FALSE
   RootVotes = FALSE
   Variant = "asis"
 INVARIANT ExportSched
